@@ -5,12 +5,13 @@ What is proved here:
  * the Location predicates the position-based resolver is made of (`IsBeforeLoc`, `IsContainLoc`,
    `isInLocation`) are TRANSLATED from the Go source on every run (`Gen.Preds`) and proved equal to the
    ones the resolver model uses, for all arguments;
- * `flat_scope_correct`: in one scope whose declarations are ordered by position, the position-based
-   lookup (last declaration of that name that is before the cursor and whose position test succeeds)
-   returns exactly the declaration Lua's scoping rule gives — the innermost earlier declaration whose
-   declaring statement has ENDED before the cursor — provided the cursor is not inside the declaring
-   statement of a later same-named declaration that the position test fails to exempt (that situation
-   is finding class C05-K1 and `K1_witness` shows it is real).
+ * `position_test_exact` / `flat_scope_correct`: in one scope, for every declaration list (shadowing and
+   re-declaration included) and EVERY cursor position, the position-based lookup (last declaration of that
+   name that is before the cursor and whose position test succeeds) returns exactly the declaration Lua's
+   scoping rule gives — the innermost earlier declaration whose declaring statement (loop header) has ended
+   before the cursor, or the declaration whose own name the cursor is on. Before the repair 73bd950 (every
+   local records the region in which it is not yet in scope) this held only outside a zone that was
+   finding class C05-K1; `own_initialiser_invisible` is the former witness of that class.
  * `chain_scope_correct`: the same along any chain of enclosing scopes (any depth, shadowing across blocks);
  * `chainIn_path` / `scopePath_ends`: for EVERY scope tree — any depth, sub-scopes in any order and even
    overlapping — and every position, the model of `FindMinScope` returns a path of scopes whose Locs contain
@@ -50,103 +51,81 @@ theorem isInLocation_is_go (l : Loc) (line col : Int) :
 
 /-! ### one scope: the position test against Lua's "scope begins after the declaring statement" -/
 
-/-- a declaration together with where its declaring statement ends -/
-structure FDecl where
-  var : Var
-  /-- last position (line, column) of the declaring statement / loop header -/
-  endLine : Int
-  endCol : Int
-deriving Repr
-
-/-- a cursor position as the degenerate Loc the resolver is called with -/
 def pt (line col : Int) : Loc := ⟨line, col, line, col⟩
 
-/-- strictly after the end of the declaring statement -/
-def afterStmt (d : FDecl) (line col : Int) : Bool := d.endLine < line || (d.endLine == line && d.endCol < col)
+/-- strictly after the end of the declaration region -/
+def afterRegion (r : Loc) (line col : Int) : Bool := r.el < line || (r.el == line && r.ec < col)
 
-/-- Lua: a local is visible once its declaring statement has ended; `local function f` (the
-    function expression contains the declared name) is visible from its name on -/
-def visibleAt (d : FDecl) (line col : Int) : Bool :=
-  match d.var.ref with
-  | .func fl => if isContainLoc fl d.var.loc then isBeforeLoc d.var.loc (pt line col) else afterStmt d line col
-  | _ => afterStmt d line col
+/-- the position is on the declared name (both ends included) -/
+def onName (v : Var) (line col : Int) : Bool := isContainLoc v.loc (pt line col)
 
-/-- well-formed declaration: the name is inside its statement, and so is the initialiser -/
-def FDecl.wf (d : FDecl) : Prop :=
-  d.var.loc.sl = d.var.loc.el ∧
-  (d.var.loc.sl < d.endLine ∨ (d.var.loc.sl = d.endLine ∧ d.var.loc.sc ≤ d.endCol)) ∧
-  (match d.var.ref with
-   | .name l | .call l | .func l => (l.el < d.endLine ∨ (l.el = d.endLine ∧ l.ec ≤ d.endCol))
-   | _ => True)
+/-- Lua: a local is in scope once its declaring statement (for a loop variable: the loop header) has ended;
+    the declared name itself denotes the variable; a parameter and a `local function` name are in scope from
+    the name on (the enclosing scope tree confines them to the function body) -/
+def visibleAt (v : Var) (line col : Int) : Bool :=
+  match v.region with
+  | some r => onName v line col || afterRegion r line col
+  | none => isBeforeLoc v.loc (pt line col)
 
-/-- finding class C05-K1 for one declaration: the cursor is at or after the declared name, the
-    declaring statement has not ended, and the position test does not exempt it -/
-def inK1Zone (d : FDecl) (line col : Int) : Bool :=
-  isCorrectPosition d.var (pt line col) && !visibleAt d line col
+/-- well-formed declaration: the name is on one line and lies inside its region; without a region the
+    variable is a parameter (no ReferExp) or a `local function` whose function expression contains the name -/
+def wfVar (v : Var) : Prop :=
+  v.loc.sl = v.loc.el ∧ v.loc.sc ≤ v.loc.ec ∧
+  (match v.region with
+   | some r => (r.sl < v.loc.sl ∨ (r.sl = v.loc.sl ∧ r.sc ≤ v.loc.sc)) ∧ (v.loc.el < r.el ∨ (v.loc.el = r.el ∧ v.loc.ec ≤ r.ec))
+   | none => v.ref = .none ∨ ∃ fl, v.ref = .func fl ∧ isContainLoc fl v.loc = true)
 
-/-- outside the K1 zone the resolver's position test IS Lua's visibility rule -/
-theorem position_test_exact (d : FDecl) (hwf : d.wf) (line col : Int) (h : inK1Zone d line col = false) :
-    isCorrectPosition d.var (pt line col) = visibleAt d line col := by
-  obtain ⟨hline, hend, href⟩ := hwf
-  unfold inK1Zone at h
-  by_cases hc : isCorrectPosition d.var (pt line col) = true
-  · simp [hc] at h; rw [hc, h]
-  · have hc' : isCorrectPosition d.var (pt line col) = false := by simpa using hc
-    rw [hc']
-    symm
-    -- the position test fails ⇒ not visible
-    unfold isCorrectPosition at hc'
-    unfold visibleAt afterStmt
-    cases hr : d.var.ref with
-    | none =>
-      simp only [hr] at hc' ⊢
-      unfold isBeforeLoc pt at hc'
-      simp at hc' ⊢
-      omega
-    | other =>
-      simp only [hr] at hc' ⊢
-      unfold isBeforeLoc pt at hc'
-      simp at hc' ⊢
-      omega
-    | name l =>
-      simp only [hr] at hc' href ⊢
-      unfold isBeforeLoc isContainLoc pt at hc'
-      simp at hc' ⊢
-      omega
-    | call l =>
-      simp only [hr] at hc' href ⊢
-      unfold isBeforeLoc isContainLoc pt at hc'
-      simp at hc' ⊢
-      omega
-    | func l =>
-      simp only [hr] at hc' href ⊢
-      by_cases hcv : isContainLoc l d.var.loc = true
-      · simp only [hcv, if_true] at hc' ⊢
-        simpa using hc'
-      · simp only [hcv, Bool.false_eq_true, if_false] at hc' ⊢
-        unfold isBeforeLoc isContainLoc pt at hc'
-        simp at hc' ⊢
-        omega
+/-- the resolver's position test IS Lua's visibility rule, for every well-formed declaration and position -/
+theorem position_test_exact (v : Var) (hwf : wfVar v) (line col : Int) :
+    isCorrectPosition v (pt line col) = visibleAt v line col := by
+  obtain ⟨hline, hcol, hreg⟩ := hwf
+  unfold isCorrectPosition visibleAt
+  cases hr : v.region with
+  | some r =>
+    simp only [hr] at hreg ⊢
+    obtain ⟨hs, he⟩ := hreg
+    have hB : isBeforeLoc v.loc (pt line col) = true ↔ (v.loc.sl < line ∨ (v.loc.sl = line ∧ v.loc.sc ≤ col)) := by
+      unfold isBeforeLoc pt; simp
+    have hIn : isContainLoc r (pt line col) = true ↔
+        (r.sl ≤ line ∧ line ≤ r.el ∧ (r.sl = line → r.sc ≤ col) ∧ (r.el = line → col ≤ r.ec)) := by
+      unfold isContainLoc pt
+      by_cases a1 : r.sl > line <;> by_cases a2 : r.el < line <;> by_cases a3 : r.sl = line <;>
+        by_cases a4 : r.sc > col <;> by_cases a5 : r.el = line <;> by_cases a6 : r.ec < col <;> simp_all <;> omega
+    have hOn : isContainLoc v.loc (pt line col) = true ↔ (v.loc.sl = line ∧ v.loc.sc ≤ col ∧ col ≤ v.loc.ec) := by
+      unfold isContainLoc pt
+      by_cases a1 : v.loc.sl > line <;> by_cases a2 : v.loc.el < line <;> by_cases a3 : v.loc.sl = line <;>
+        by_cases a4 : v.loc.sc > col <;> by_cases a5 : v.loc.el = line <;> by_cases a6 : v.loc.ec < col <;> simp_all <;> omega
+    have hAf : afterRegion r line col = true ↔ (r.el < line ∨ (r.el = line ∧ r.ec < col)) := by
+      unfold afterRegion; simp
+    unfold onName
+    by_cases hb : isBeforeLoc v.loc (pt line col) = true <;> by_cases hin : isContainLoc r (pt line col) = true <;>
+      by_cases hon : isContainLoc v.loc (pt line col) = true <;> by_cases haf : afterRegion r line col = true <;>
+      simp only [hb, hin, hon, haf, Bool.not_true, Bool.not_false, Bool.and_true, Bool.and_false, Bool.or_true, Bool.or_false,
+        Bool.true_and, Bool.false_and, Bool.true_or, Bool.false_or, if_true, if_false, Bool.false_eq_true, Bool.not_eq_true] <;>
+      (try rfl) <;> (exfalso; rw [hB] at hb; rw [hIn] at hin; rw [hOn] at hon; rw [hAf] at haf; omega)
+  | none =>
+    simp only [hr] at hreg ⊢
+    rcases hreg with h | ⟨fl, h, hc⟩
+    · simp [h]
+    · simp [h, hc]
 #print axioms position_test_exact
 
 /-- the resolver's lookup in one scope: last declaration of that name passing the position test -/
-def modelFind (ds : List FDecl) (n : Bytes) (line col : Int) : Option FDecl :=
-  ds.reverse.find? fun d => d.var.name == n && isCorrectPosition d.var (pt line col)
+def modelFind (ds : List Var) (n : Bytes) (line col : Int) : Option Var :=
+  ds.reverse.find? fun d => d.name == n && isCorrectPosition d (pt line col)
 
 /-- Lua: the innermost (= last declared) visible declaration of that name -/
-def specFind (ds : List FDecl) (n : Bytes) (line col : Int) : Option FDecl :=
-  ds.reverse.find? fun d => d.var.name == n && visibleAt d line col
+def specFind (ds : List Var) (n : Bytes) (line col : Int) : Option Var :=
+  ds.reverse.find? fun d => d.name == n && visibleAt d line col
 
-/-- **One scope.** For any declaration list (shadowing and re-declaration included) and any cursor
-    that lies in no K1 zone of a declaration of the queried name, the position-based resolver
-    returns Lua's binding. -/
-theorem flat_scope_correct (ds : List FDecl) (hwf : ∀ d ∈ ds, d.wf) (n : Bytes) (line col : Int)
-    (hk : ∀ d ∈ ds, d.var.name = n → inK1Zone d line col = false) :
+/-- **One scope.** For any declaration list (shadowing and re-declaration included) and EVERY cursor
+    position, the position-based resolver returns Lua's binding. -/
+theorem flat_scope_correct (ds : List Var) (hwf : ∀ d ∈ ds, wfVar d) (n : Bytes) (line col : Int) :
     modelFind ds n line col = specFind ds n line col := by
   unfold modelFind specFind
-  have key : ∀ (l : List FDecl), (∀ d ∈ l, d ∈ ds) →
-      l.find? (fun d => d.var.name == n && isCorrectPosition d.var (pt line col)) =
-      l.find? (fun d => d.var.name == n && visibleAt d line col) := by
+  have key : ∀ (l : List Var), (∀ d ∈ l, d ∈ ds) →
+      l.find? (fun d => d.name == n && isCorrectPosition d (pt line col)) =
+      l.find? (fun d => d.name == n && visibleAt d line col) := by
     intro l
     induction l with
     | nil => intro _; rfl
@@ -154,33 +133,29 @@ theorem flat_scope_correct (ds : List FDecl) (hwf : ∀ d ∈ ds, d.wf) (n : Byt
       intro hmem
       have hd' : d ∈ ds := hmem d (by simp)
       have ih := ih (fun x hx => hmem x (by simp [hx]))
-      by_cases hn : d.var.name = n
-      · simp only [List.find?_cons, position_test_exact d (hwf d hd') line col (hk d hd' hn), ih]
-      · have : (d.var.name == n) = false := by simpa using hn
-        simp only [List.find?_cons, this, Bool.false_and, ih]
+      simp only [List.find?_cons, position_test_exact d (hwf d hd') line col, ih]
   exact key ds.reverse (fun d hd => by simpa using hd)
 #print axioms flat_scope_correct
 
 /-- the resolver along a chain of scopes (innermost first): the first scope that has a match wins -/
-def modelFindChain (chain : List (List FDecl)) (n : Bytes) (line col : Int) : Option FDecl :=
+def modelFindChain (chain : List (List Var)) (n : Bytes) (line col : Int) : Option Var :=
   chain.findSome? fun ds => modelFind ds n line col
 
 /-- Lua along the chain of enclosing blocks: the innermost visible declaration -/
-def specFindChain (chain : List (List FDecl)) (n : Bytes) (line col : Int) : Option FDecl :=
+def specFindChain (chain : List (List Var)) (n : Bytes) (line col : Int) : Option Var :=
   chain.findSome? fun ds => specFind ds n line col
 
 /-- **Nested scopes.** For any chain of enclosing scopes (any depth, shadowing across blocks, a
-    declaration of an outer block placed after the inner block) and any cursor outside the K1 zones of
-    the same-named declarations of those scopes, the position-based resolver returns Lua's binding. -/
-theorem chain_scope_correct (chain : List (List FDecl)) (hwf : ∀ ds ∈ chain, ∀ d ∈ ds, d.wf) (n : Bytes)
-    (line col : Int) (hk : ∀ ds ∈ chain, ∀ d ∈ ds, d.var.name = n → inK1Zone d line col = false) :
-    modelFindChain chain n line col = specFindChain chain n line col := by
+    declaration of an outer block placed after the inner block) and EVERY cursor position, the
+    position-based resolver returns Lua's binding. -/
+theorem chain_scope_correct (chain : List (List Var)) (hwf : ∀ ds ∈ chain, ∀ d ∈ ds, wfVar d) (n : Bytes)
+    (line col : Int) : modelFindChain chain n line col = specFindChain chain n line col := by
   unfold modelFindChain specFindChain
   induction chain with
   | nil => rfl
   | cons ds r ih =>
-    have h1 := flat_scope_correct ds (hwf ds (by simp)) n line col (hk ds (by simp))
-    have ih' := ih (fun x hx => hwf x (by simp [hx])) (fun x hx => hk x (by simp [hx]))
+    have h1 := flat_scope_correct ds (hwf ds (by simp)) n line col
+    have ih' := ih (fun x hx => hwf x (by simp [hx]))
     simp only [List.findSome?_cons, h1, ih']
 #print axioms chain_scope_correct
 
@@ -272,22 +247,20 @@ theorem unordered_siblings_witness :
   decide
 #print axioms unordered_siblings_witness
 
-/-- The class is real: `local x = 1` / `local x = x + 1` with the cursor on the right-hand `x`:
-    the resolver answers the NEW x (declared on line 2) although its scope has not begun. -/
-theorem K1_witness :
-    let d1 : FDecl := { var := { name := [120], loc := ⟨1, 6, 1, 7⟩, ref := .other }, endLine := 1, endCol := 11 }
-    let d2 : FDecl := { var := { name := [120], loc := ⟨2, 6, 2, 7⟩, ref := .other }, endLine := 2, endCol := 15 }
-    (modelFind [d1, d2] [120] 2 10).map (·.var.loc) = some ⟨2, 6, 2, 7⟩ ∧
-    (specFind [d1, d2] [120] 2 10).map (·.var.loc) = some ⟨1, 6, 1, 7⟩ ∧
-    inK1Zone d2 2 10 = true := by
+/-- the former finding C05-K1, now an instance of `flat_scope_correct`: `local x = 1` / `local x = x + 1`
+    with the cursor on the right-hand `x` (line 2, column 10): the resolver answers the FIRST x, whose
+    statement has ended; on its own name (column 6) and after its statement (line 3) the second x -/
+theorem own_initialiser_invisible :
+    let d1 : Var := { name := [120], loc := ⟨1, 6, 1, 7⟩, ref := .other, region := some ⟨1, 0, 1, 11⟩ }
+    let d2 : Var := { name := [120], loc := ⟨2, 6, 2, 7⟩, ref := .other, region := some ⟨2, 0, 2, 15⟩ }
+    (modelFind [d1, d2] [120] 2 10).map (·.loc) = some ⟨1, 6, 1, 7⟩ ∧
+    (modelFind [d1, d2] [120] 2 6).map (·.loc) = some ⟨2, 6, 2, 7⟩ ∧
+    (modelFind [d1, d2] [120] 3 6).map (·.loc) = some ⟨2, 6, 2, 7⟩ := by
   decide
-#print axioms K1_witness
+#print axioms own_initialiser_invisible
 
-/-- non-vacuity: the same two declarations, cursor on line 3 — hypotheses hold, both answer the new x -/
-example :
-    let d1 : FDecl := { var := { name := [120], loc := ⟨1, 6, 1, 7⟩, ref := .other }, endLine := 1, endCol := 11 }
-    let d2 : FDecl := { var := { name := [120], loc := ⟨2, 6, 2, 7⟩, ref := .other }, endLine := 2, endCol := 15 }
-    inK1Zone d1 3 6 = false ∧ inK1Zone d2 3 6 = false ∧
-    (modelFind [d1, d2] [120] 3 6).map (·.var.loc) = some ⟨2, 6, 2, 7⟩ := by decide
+/-- non-vacuity of the well-formedness hypothesis -/
+example : wfVar { name := [120], loc := ⟨2, 6, 2, 7⟩, ref := .other, region := some ⟨2, 0, 2, 15⟩ } := by
+  simp [wfVar]
 
 end LuaHelper.C05
